@@ -457,3 +457,129 @@ def c20_state(tr, st, c):
 
 
 PER_STEP = {"C03": c03, "C04": c04, "C05": c05, "C06": c06, "C07": c07, "C14": c14, "C20": c20_state}
+
+
+# ------------------------------------------------------------------ C02: the documented recurrences
+
+
+def _close(a, b, ref=None, rtol=R):
+    a = np.asarray(a, dtype=float)
+    b = np.asarray(b, dtype=float)
+    mag = np.maximum(np.abs(a), np.abs(b))
+    if ref is not None:
+        mag = np.maximum(mag, np.abs(ref))
+    with np.errstate(invalid="ignore"):
+        return np.abs(a - b) <= rtol * mag + 1e-300
+
+
+def c02(tr, st, c):
+    """docs/source/boario-math.rst applied to the pre-step state, phase by phase.  Where the other
+    properties fix a reading the prose leaves open (C03: technology mask and cap at 1; C06/C18: both
+    classes order inputs used + share of the gap, capacity-weighted shares) that reading is used."""
+    out = []
+    t = st["t"]
+    m, n = c["m"], c["n"]
+    N = m * n
+    ph = st["phases"]
+
+    def both(name):
+        p = ph.get(name)
+        if not p or p["post"] is None or p.get("exc"):
+            return None
+        return p["pre"]["econ"], p["post"]["econ"]
+
+    # --- overproduction module:  zeta = (D - x)/D ;  alpha' = alpha + (amax - alpha) zeta / tau  if zeta > 0
+    #                                                  alpha' = alpha + (ab - alpha) / tau          if zeta <= 0
+    bp = both("overprod")
+    if bp:
+        pre, post = bp
+        D, x, al = pre["dTot"], pre["prod"], pre["alpha"]
+        with np.errstate(divide="ignore", invalid="ignore"):
+            zeta = np.where(D != 0, (D - x) / np.where(D != 0, D, 1.0), 0.0)
+        up = al + (c["aMax"] - al) * zeta * c["aTau"]
+        down = al + (c["aBase"] - al) * c["aTau"]
+        want = np.maximum(1.0, np.where(zeta > 0, up, down))
+        ok = _close(post["alpha"], want)
+        # exact ties of the threshold test (zeta = 0 up to rounding) are accepted either way
+        tie = np.abs(zeta) <= 1e-12
+        alt_ = np.maximum(1.0, np.where(zeta > 0, down, up))
+        ok |= tie & _close(post["alpha"], alt_)
+        if not ok.all():
+            i = int(np.argmax(~ok))
+            out.append(viol("C02", t, "overproduction factor differs from the documented scarcity rule", cell=i,
+                            got=float(post["alpha"][i]), documented=float(want[i]), scarcity=float(zeta[i]), before=float(al[i])))
+    # --- production module
+    bp = both("production")
+    if bp:
+        pre, post = bp
+        cap = capacity(c, pre)
+        D = pre["dTot"]
+        xo = np.minimum(D, cap)
+        cons = xo[None, :] * c["a"] * c["psi"] * c["dur0"][:, None]
+        real = c["thr"] & c["fin"][:, None] & (cons != 0)
+        st_f = np.where(np.isfinite(pre["stock"]), pre["stock"], np.inf)
+        with np.errstate(divide="ignore", invalid="ignore"):
+            ratio = np.where(real, st_f / np.where(cons != 0, cons, 1.0), np.inf)
+        worst = ratio.min(axis=0) if n else np.full(N, np.inf)
+        want = xo * np.minimum(1.0, worst)
+        if not _close(post["prod"], want, ref=xo).all():
+            i = int(np.argmax(~_close(post["prod"], want, ref=xo)))
+            out.append(viol("C02", t, "realised production differs from demand-and-capacity-limited production reduced by the tightest input shortage",
+                            cell=i, got=float(post["prod"][i]), documented=float(want[i])))
+    # --- distribution and inventory module
+    p = ph.get("distribute")
+    if p and p["post"] is not None and not p.get("exc"):
+        pre, post = p["pre"]["econ"], p["post"]["econ"]
+        dem = np.concatenate([pre["orders"], pre["fd"]] + ([pre["reb"]] if pre["reb"] is not None and pre["nE"] > 0 else []), axis=1)
+        D = dem.sum(axis=1)
+        x = pre["prod"]
+        with np.errstate(divide="ignore", invalid="ignore"):
+            recv = dem * np.where(D != 0, x / np.where(D != 0, D, 1.0), 0.0)[:, None]
+        if post.get("deliv") is not None and not _close(post["deliv"], recv, ref=dem).all():
+            out.append(viol("C02", t, "deliveries differ from proportional rationing"))
+        add = recv[:, :N].reshape(m, n, N).sum(axis=0)
+        use = x[None, :] * c["a"]
+        want = pre["stock"] - use + add
+        fin = c["fin"]
+        okU = _close(post["stock"][fin], want[fin], ref=pre["stock"][fin]).all() if fin.any() else True
+        okS = np.array_equal(post["stock"][fin], pre["stock"][fin]) and np.allclose(add, use)
+        if not (okU or okS):
+            out.append(viol("C02", t, "inventories differ from stock + orders received - inputs used"))
+        F = pre["fd"].shape[1]
+        um = (pre["fd"] - recv[:, N:N + F]).sum(axis=1)
+        if not _close(post["fdUnmet"], um, ref=pre["fd"].sum(axis=1)).all():
+            out.append(viol("C02", t, "unmet final demand differs from final demand minus deliveries"))
+    # --- order module
+    bp = both("orders")
+    if bp:
+        pre, post = bp
+        cap = capacity(c, pre)
+        xo = np.minimum(pre["dTot"], cap)
+        goal = xo[None, :] * c["a"] * c["dur0"][:, None]
+        st_f = np.where(c["fin"][:, None], pre["stock"], 0.0)
+        gap = np.where(c["fin"][:, None], np.maximum(0.0, goal - st_f), 0.0)
+        tot = c["rest"][:, None] * gap + pre["prod"][None, :] * c["a"]
+        tot0 = pre["prod"][None, :] * c["a"]
+        if c["alt"]:
+            with np.errstate(divide="ignore", invalid="ignore"):
+                rho = np.where(c["x0"] != 0, cap / np.where(c["x0"] != 0, c["x0"], 1.0), 1.0)
+            Zs = c["Z0"] * rho[:, None]
+        else:
+            Zs = c["Z0"]
+        ZC = np.tile(Zs.reshape(m, n, N).sum(axis=0), (m, 1))
+        with np.errstate(divide="ignore", invalid="ignore"):
+            share = np.where(ZC != 0, Zs / np.where(ZC != 0, ZC, 1.0), 0.0)
+        want = np.tile(tot, (m, 1)) * share
+        want0 = np.tile(tot0, (m, 1)) * share
+        fin2 = c["fin"][:, None] & np.ones_like(goal, dtype=bool)
+        may_close = bool(np.all(np.abs(st_f - goal)[fin2] <= 1.1e-8 + 1.1e-5 * np.abs(goal)[fin2])) if fin2.any() else True
+        ref = np.tile(np.maximum(np.abs(tot), np.abs(goal)), (m, 1))
+        if not (_close(post["orders"], want, ref=None, rtol=1e-8).all() or (may_close and _close(post["orders"], want0, rtol=1e-8).all())):
+            bad = ~_close(post["orders"], want, rtol=1e-8)
+            i, j = np.argwhere(bad)[0]
+            out.append(viol("C02", t, "orders differ from (gap / tau_inv + inputs used) x supplier share", supplier=int(i), client=int(j),
+                            got=float(post["orders"][i, j]), documented=float(want[i, j])))
+    return out
+
+
+PER_STEP["C02"] = c02
